@@ -285,3 +285,127 @@ Definition to_local_v0 := to_local_with recv_val_v0.
 Definition roundtrip_v0 := roundtrip_with recv_val_v0.
 Definition to_local_v1 := to_local_with recv_val_v1.
 Definition roundtrip_v1 := roundtrip_with recv_val_v1.
+
+(* ================================================================ Python values (strengthening round 2)
+   from_local / to_() are handed a dictionary local name -> VALUE, where a value is a list of Python
+   objects or a single object (s_utils.do_ava, 307-327):
+     str                -> one AttributeValue, set_text(str): xsi:type xs:string, the text itself
+     list               -> [do_ava(v)[0] for v in val], left to right
+     val or val is False-> set_text(val): bool -> xs:boolean "true"/"false" (str(x).lower()),
+                           int -> xs:integer str(x)  (saml.AttributeValueBase.set_text, type_to_xsd)
+     None               -> do_ava returns None (inside a list: None[0] raises TypeError)
+     anything else      -> falsy and neither False nor None, e.g. the integer 0:
+                           raise OtherError("strange value type on: 0")           [finding C17-F4]
+   The eduPersonTargetedID branch (wire name = the OID) does not go through do_ava:
+   to_eptid_value wraps every item as it is (str items; a single str is one item).
+   Not modelled (DRaise UNMODELLED, never equal to an observed exception name, so a generated case
+   of that kind is reported as a disagreement): a single None (the Attribute object gets
+   attribute_value = None), non-str items for the OID, floats, bytes, nested lists, dicts. *)
+From Coq Require Import ZArith DecimalString.
+
+Inductive pyval := PStr (s : string) | PBool (b : bool) | PInt (z : Z) | PNone.
+Inductive pyvalue := VList (l : list pyval) | VOne (v : pyval).
+Definition pava := list (string * pyvalue).
+
+Inductive dres (A : Type) := DOk (x : A) | DRaise (e : string).
+Arguments DOk {A} x.
+Arguments DRaise {A} e.
+
+Definition UNMODELLED := "unmodelled".
+
+(* str(z) *)
+Definition dec_of_Z (z : Z) : string := NilZero.string_of_int (Z.to_int z).
+
+(* do_ava(v) for v that is not a list: (xsi:type, text) of the AttributeValue; None = returns None *)
+Definition do_ava1 (v : pyval) : dres (option (string * string)) :=
+  match v with
+  | PStr s => DOk (Some ("xs:string", s))
+  | PBool b => DOk (Some ("xs:boolean", if b then "true" else "false"))
+  | PInt z => if Z.eqb z 0 then DRaise "OtherError" else DOk (Some ("xs:integer", dec_of_Z z))
+  | PNone => DOk None
+  end.
+
+(* [do_ava(v)[0] for v in val] *)
+Fixpoint do_ava_list (l : list pyval) : dres (list (string * string)) :=
+  match l with
+  | [] => DOk []
+  | v :: r =>
+      match do_ava1 v with
+      | DRaise e => DRaise e
+      | DOk None => DRaise "TypeError"
+      | DOk (Some x) => match do_ava_list r with DOk xs => DOk (x :: xs) | DRaise e => DRaise e end
+      end
+  end.
+
+Definition do_ava (v : pyvalue) : dres (list (string * string)) :=
+  match v with
+  | VList l => do_ava_list l
+  | VOne x =>
+      match do_ava1 x with
+      | DOk (Some tv) => DOk [tv]
+      | DOk None => DRaise UNMODELLED
+      | DRaise e => DRaise e
+      end
+  end.
+
+Fixpoint all_str (l : list pyval) : option (list string) :=
+  match l with
+  | [] => Some []
+  | PStr s :: r => match all_str r with Some vs => Some (s :: vs) | None => None end
+  | _ :: _ => None
+  end.
+
+(* to_eptid_value: str items only *)
+Definition eptid_value (v : pyvalue) : dres (list string) :=
+  match v with
+  | VList l => match all_str l with Some vs => DOk vs | None => DRaise UNMODELLED end
+  | VOne (PStr s) => DOk [s]
+  | VOne _ => DRaise UNMODELLED
+  end.
+
+(* name == "urn:oid:1.3.6.1.4.1.5923.1.1.1.10" in to_() *)
+Definition sends_eptid (m : conv) (k : string) : bool :=
+  match lookup (lower k) (to_ m) with Some n => String.eqb n EPTID_OID | None => false end.
+
+(* one wire attribute plus what the AttributeValue objects carry besides the text: their xsi:type
+   ("" for the NameID-wrapped values, which have none) *)
+Definition to_one_py (m : conv) (kv : string * pyvalue) : dres (wattr * list string) :=
+  if sends_eptid m (fst kv)
+  then match eptid_value (snd kv) with
+       | DOk vs => DOk (to_one m (fst kv, vs), map (fun _ => "") vs)
+       | DRaise e => DRaise e
+       end
+  else match do_ava (snd kv) with
+       | DOk tvs => DOk (to_one m (fst kv, map snd tvs), map fst tvs)
+       | DRaise e => DRaise e
+       end.
+
+(* for key, value in attrvals.items(): the first exception ends the loop *)
+Fixpoint dseq {A} (l : list (dres A)) : dres (list A) :=
+  match l with
+  | [] => DOk []
+  | DRaise e :: _ => DRaise e
+  | DOk x :: r => match dseq r with DOk xs => DOk (x :: xs) | DRaise e => DRaise e end
+  end.
+
+Definition conv_to_py (m : conv) (a : pava) : dres (list (wattr * list string)) := dseq (map (to_one_py m) a).
+
+(* from_local: None without a converter for the name format (the values are not looked at) *)
+Inductive sres := SOk (ws : list (wattr * list string)) | SNone | SExc (e : string).
+
+Definition from_local_py (acs : list conv) (a : pava) (f : string) : sres :=
+  match sender acs f with
+  | Some m => match conv_to_py m a with DOk ws => SOk ws | DRaise e => SExc e end
+  | None => SNone
+  end.
+
+Inductive rres := ROk (r : ava) | RNone | RExc (e : string).
+
+(* the AttributeValue texts are str objects whatever the Python type was; parsing an xs:boolean /
+   xs:integer value whose text is what set_text wrote gives that text back *)
+Definition roundtrip_py (acs : list conv) (a : pava) (f : string) (allow xml : bool) : rres :=
+  match from_local_py acs a f with
+  | SOk ws => ROk (to_local acs allow (if xml then map harvest (map fst ws) else map fst ws))
+  | SNone => RNone
+  | SExc e => RExc e
+  end.
